@@ -800,6 +800,7 @@ func worker(w *runner.W) {
 		if w.Expired() {
 			return
 		}
+		w.SetCase(func() any { return Case{Config: c} })
 		units := mc.Units(c.Bound, func(e *mc.Explorer) {
 			run(e, c, false)
 			e.EndExecution()
